@@ -149,6 +149,11 @@ func c14Request(class string) *http.Request {
 	switch class {
 	case "valid_post":
 		return mk("POST", "/items?n=1", `{"name":"a"}`)
+	case "valid_upgrade":
+		r := mk("POST", "/items?n=1", `{"name":"a"}`)
+		r.Header.Set("Connection", "keep-alive, Upgrade")
+		r.Header.Set("Upgrade", "websocket")
+		return r
 	case "valid_plain":
 		return mk("GET", "/plain/5", "")
 	case "valid_secure":
@@ -253,9 +258,17 @@ func c14Run(c *Case) []any {
 		sink = client
 	}
 	var gate http.Handler
-	if tc.Cfg.Gate == "vhandler" {
+	if tc.Cfg.Gate == "vhandler" || tc.Cfg.Gate == "vhandler_mw" {
+		other := http.HandlerFunc(func(w http.ResponseWriter, _ *http.Request) {
+			log = append(log, map[string]any{"ev": "Other"}) // the handler behind the OTHER wrapper must never run
+			w.WriteHeader(299)
+		})
+		var base http.Handler = handler
+		if tc.Cfg.Gate == "vhandler_mw" {
+			base = other
+		}
 		vh := &openapi3filter.ValidationHandler{
-			Handler: handler,
+			Handler: base,
 			File:    c14DocFile(),
 			AuthenticationFunc: func(_ context.Context, in *openapi3filter.AuthenticationInput) error {
 				if in.RequestValidationInput.Request.Header.Get("X-Key") == "good" {
@@ -269,6 +282,11 @@ func c14Run(c *Case) []any {
 			panic("harness: c14 ValidationHandler.Load: " + err.Error())
 		}
 		gate = vh
+		if tc.Cfg.Gate == "vhandler_mw" {
+			// one ValidationHandler, two wrappers: the request goes through the wrapper of the handler under test
+			gate = vh.Middleware(handler)
+			_ = vh.Middleware(other)
+		}
 	} else {
 		gate = openapi3filter.NewValidator(c14Router(), opts...).Middleware(handler)
 	}
